@@ -255,6 +255,16 @@ def _scalar_positions(flavour, extra_opts, client_kw):
                 ser = [(n, repr(v)) for n, v in hm.CALLS if n.startswith("ser")]
                 if sorted(x for x in ser if x[1] != "None") != sorted([("ser_stamp", repr(S("a"))), ("ser_tag", repr("tg"))]):
                     bad.append(f"serialize-called-once-per-given-argument-of-its-scalar: {ser}")
+                # a value that is falsy in Python (an empty string here) is a value: serialised and sent like any other
+                n_before = len(hm.CALLS)
+                field2 = cq.Query.event(after=S("b"), tag="").fields(cf.EventFields.id)
+                asyncio.run(client.query(field2, operation_name="B2"))
+                got2 = {k.rsplit("_", 1)[0]: v for k, v in (sent[-1].get("variables") or {}).items()}
+                if got2.get("tag") != "out:" or got2.get("after") != "S:b":
+                    bad.append(f"falsy-builder-argument-of-a-serialised-scalar-is-sent-as-serialize(value): sent {sent[-1].get('variables')!r}")
+                if ("ser_tag", repr("")) not in [(n, repr(v)) for n, v in hm.CALLS[n_before:]]:
+                    bad.append("serialize-called-for-a-falsy-argument")
+                del hm.CALLS[n_before:]
                 # (known finding F43) an argument of a serialised scalar that is left as None is omitted, serialize is never called for it
                 extra = sorted(set(got) - set(want))
                 if extra or any(x[1] == "None" for x in ser):
